@@ -234,32 +234,6 @@ func ruleFmtClass(w *World, r *Report) {
 			for _, x := range inner {
 				innerSet[x] = true
 			}
-			var terms []int64
-			for _, x := range inner {
-				iff, ok := x.Instrs[len(x.Instrs)-1].(*ssa.If)
-				if !ok {
-					continue
-				}
-				bo2, ok := iff.Cond.(*ssa.BinOp)
-				if !ok || bo2.Op != token.EQL {
-					continue
-				}
-				t, okt := constInt(bo2.Y)
-				if !okt {
-					continue
-				}
-				if addr, okl := isLoad(bo2.X); !okl {
-					continue
-				} else if _, oki := addr.(*ssa.IndexAddr); !oki {
-					continue
-				}
-				if !innerSet[x.Succs[0]] {
-					terms = append(terms, t)
-				}
-			}
-			sort.Slice(terms, func(i, j int) bool { return terms[i] < terms[j] })
-			formatter[c] = terms
-			// the copy loop is left only by a terminator or by the end of the input
 			var wbs []*ssa.BasicBlock
 			for _, x := range inner {
 				for _, in := range x.Instrs {
@@ -281,6 +255,35 @@ func ruleFmtClass(w *World, r *Report) {
 					}
 				}
 			}
+			var terms []int64
+			for _, x := range inner {
+				if !copySet[x] {
+					continue
+				}
+				iff, ok := x.Instrs[len(x.Instrs)-1].(*ssa.If)
+				if !ok {
+					continue
+				}
+				bo2, ok := iff.Cond.(*ssa.BinOp)
+				if !ok || bo2.Op != token.EQL {
+					continue
+				}
+				t, okt := constInt(bo2.Y)
+				if !okt {
+					continue
+				}
+				if addr, okl := isLoad(bo2.X); !okl {
+					continue
+				} else if _, oki := addr.(*ssa.IndexAddr); !oki {
+					continue
+				}
+				if !copySet[x.Succs[0]] {
+					terms = append(terms, t)
+				}
+			}
+			sort.Slice(terms, func(i, j int) bool { return terms[i] < terms[j] })
+			formatter[c] = terms
+			// the copy loop is left only by a terminator or by the end of the input
 			for _, x := range inner {
 				if !copySet[x] {
 					continue
@@ -345,13 +348,19 @@ func ruleFmtClass(w *World, r *Report) {
 		ft, ok := formatter[k]
 		same := ok && len(lt) > 0
 		if same {
-			// every terminator of the lexer class is a terminator of the formatter state
-			set := map[int64]bool{}
+			// the formatter's copy-through loop ends on exactly the runes that end the lexer's token
+			set, lset := map[int64]bool{}, map[int64]bool{}
 			for _, t := range ft {
 				set[t] = true
 			}
 			for _, t := range lt {
+				lset[t] = true
 				if !set[t] {
+					same = false
+				}
+			}
+			for _, t := range ft {
+				if !lset[t] {
 					same = false
 				}
 			}
@@ -656,6 +665,8 @@ func ruleDirFirst(w *World, r *Report) {
 }
 
 var c14Witnesses = []Witness{
+	{Name: "formatter-comment-ends-on-carriage-return", Rule: "R-FMTCLASS", Edits: []Edit{
+		{File: "util.go", Old: "				sb.WriteRune(A[i])\n				if A[i] == '\\n' {\n					break\n				}", New: "				sb.WriteRune(A[i])\n				if A[i] == '\\n' || A[i] == '\\r' {\n					break\n				}"}}},
 	{Name: "formatter-string-copy-leaves-after-eight-runes", Rule: "R-FMTCLASS", Edits: []Edit{
 		{File: "util.go", Old: "			for i++; i < len(A); i++ {\n				sb.WriteRune(A[i])\n				if A[i] == '\"' {\n					break\n				}\n			}", New: "			for n := 0; i+1 < len(A); n++ {\n				i++\n				sb.WriteRune(A[i])\n				if A[i] == '\"' || n > 7 {\n					break\n				}\n			}"}}},
 	{Name: "formatter-stops-after-thousand-runes", Rule: "R-FMTCLASS", Edits: []Edit{
